@@ -1,5 +1,6 @@
 import DryocVerif.Model.Protected
 import DryocVerif.Proofs.Protected
+import DryocVerif.Proofs.ProtectedData
 import DryocVerif.Proofs.GenProtected
 /-
 C14 — protected memory: page coverage of the protection calls, the state invariant of the
@@ -25,6 +26,17 @@ counter-model) `lock` on a non-empty `NoAccess` region broke it: `mlock(2)` fail
 pages but leaves them marked locked, the error path drops the region with `lm = Unlocked`, and
 nobody unlocks them (observed on the real harness before the repair: sample line 1 ended with
 `lck=4`).  See `lock_noaccess_leaks` and, for the leaky variant, `drop_restores_leaky`.
+
+Beyond the invariant itself:
+  (d) the rights are ENFORCED: in every state satisfying `Inv` the outcome of a read / write at any
+      byte of a region, and of a read at either guard page, is determined by the region's type state
+      (`probe_outcomes`, `ro_write_faults`, `ro_read_ok`, `na_any_access_faults`, `rw_access_ok`,
+      `guard_probes_fault` with its counterexample `guard_probe_far_spare`, `…_reachable`);
+  (e) the trailing guard starts at most one page after the end of the allocation
+      (`aft_guard_within_page`, `alloc_guards`);
+  (f) contents: unchanged by transitions (`transition_keeps_content`), copied by `clone`
+      (`clone_keeps_data`), prefix-preserved and zero-filled by `resize` (`resize_keeps_prefix`);
+  (g) a step touches no page of a slot it leaves alone (`others_untouched`).
 -/
 namespace DryocVerif.Properties.C14
 open DryocVerif DryocVerif.Model.Protected DryocVerif.Proofs.Protected
@@ -330,6 +342,297 @@ example :
     (mprotectLenMinus1 4096 Kernel.init 4096 4097 .none).perm 2 = .rw ∧
     (mprotect 4096 Kernel.init 4096 4097 .none).perm 2 = .none := by
   decide
+
+/-! ### (d) the rights are enforced: what a read / write at a byte of a region, or at a guard page, does
+
+The probe tokens model a volatile read / write executed in a forked child (`segv` = the child died
+of SIGSEGV).  In every state satisfying `Inv` — hence in every reachable state — the outcome is
+determined by the type state of the probed slot. -/
+
+/-- the outcome of a write probe and of a read probe at any byte `off < len` of a live region, as a
+function of the permission its type state stands for (`stPerm`: `rw` for Plain and ReadWrite, `r`
+for ReadOnly, `none` for NoAccess); the probe changes nothing but the release log -/
+theorem probe_outcomes (c : Cfg) (hP : 0 < c.P) (s : State) (h : Inv c s) (i : Nat) (sl : Slot)
+    (hi : s.slots[i]? = some sl) (hg : sl.gone = false) (off : Nat) (hoff : off < sl.o.v.len) :
+    step c s ⟨.wprobe off, i⟩ = (if stPerm sl.o.st = .rw then .ok else .segv, resetRel s) ∧
+    step c s ⟨.rprobe off, i⟩ = (if stPerm sl.o.st = .none then .segv else .ok, resetRel s) :=
+  ⟨opWProbe_eq hP (s := resetRel s) h hi hg hoff, opRProbe_eq hP (s := resetRel s) h hi hg hoff⟩
+
+/-- a write to ANY byte of a read-only region (locked or not) faults -/
+theorem ro_write_faults (c : Cfg) (hP : 0 < c.P) (s : State) (h : Inv c s) (i : Nat) (sl : Slot)
+    (hi : s.slots[i]? = some sl) (hg : sl.gone = false) (lm : LM) (hst : sl.o.st = .prot lm .ro)
+    (off : Nat) (hoff : off < sl.o.v.len) : (step c s ⟨.wprobe off, i⟩).1 = .segv := by
+  rw [(probe_outcomes c hP s h i sl hi hg off hoff).1, hst]; rfl
+
+/-- … whereas reading it is fine -/
+theorem ro_read_ok (c : Cfg) (hP : 0 < c.P) (s : State) (h : Inv c s) (i : Nat) (sl : Slot)
+    (hi : s.slots[i]? = some sl) (hg : sl.gone = false) (lm : LM) (hst : sl.o.st = .prot lm .ro)
+    (off : Nat) (hoff : off < sl.o.v.len) : (step c s ⟨.rprobe off, i⟩).1 = .ok := by
+  rw [(probe_outcomes c hP s h i sl hi hg off hoff).2, hst]; rfl
+
+/-- any access — read or write — to any byte of a no-access region faults -/
+theorem na_any_access_faults (c : Cfg) (hP : 0 < c.P) (s : State) (h : Inv c s) (i : Nat) (sl : Slot)
+    (hi : s.slots[i]? = some sl) (hg : sl.gone = false) (lm : LM) (hst : sl.o.st = .prot lm .na)
+    (off : Nat) (hoff : off < sl.o.v.len) :
+    (step c s ⟨.rprobe off, i⟩).1 = .segv ∧ (step c s ⟨.wprobe off, i⟩).1 = .segv := by
+  rw [(probe_outcomes c hP s h i sl hi hg off hoff).1, (probe_outcomes c hP s h i sl hi hg off hoff).2, hst]
+  exact ⟨rfl, rfl⟩
+
+/-- a bare container and a read-write region can be read and written at every byte -/
+theorem rw_access_ok (c : Cfg) (hP : 0 < c.P) (s : State) (h : Inv c s) (i : Nat) (sl : Slot)
+    (hi : s.slots[i]? = some sl) (hg : sl.gone = false)
+    (hst : sl.o.st = .plain ∨ ∃ lm, sl.o.st = .prot lm .rw)
+    (off : Nat) (hoff : off < sl.o.v.len) :
+    (step c s ⟨.rprobe off, i⟩).1 = .ok ∧ (step c s ⟨.wprobe off, i⟩).1 = .ok := by
+  rw [(probe_outcomes c hP s h i sl hi hg off hoff).1, (probe_outcomes c hP s h i sl hi hg off hoff).2]
+  rcases hst with hst | ⟨lm, hst⟩ <;> rw [hst] <;> exact ⟨rfl, rfl⟩
+
+/-- Reading the byte just before a non-empty region faults, in every type state; reading the first
+inaccessible page after the data (the harness looks at the 40 pages following the data) faults as
+well, PROVIDED the trailing guard is among those 40 pages, i.e. the spare capacity left by a
+shrinking `resize` is shorter than that.  Without the proviso the statement is false:
+`guard_probe_far_spare` below. -/
+theorem guard_probes_fault (c : Cfg) (hP : 0 < c.P) (s : State) (h : Inv c s) (i : Nat) (sl : Slot)
+    (hi : s.slots[i]? = some sl) (hg : sl.gone = false) (hl : 0 < sl.o.v.len) :
+    (step c s ⟨.gprobe true, i⟩).1 = .segv ∧
+    (sl.o.v.cap / c.P + 1 < pagesOf c.P sl.o.v.len + 40 → (step c s ⟨.gprobe false, i⟩).1 = .segv) := by
+  refine ⟨?_, fun hsp => ?_⟩
+  · rw [step_gprobe, opGProbe_fore (s := resetRel s) h hi hg hl]
+  · rw [step_gprobe, opGProbe_aft hP (s := resetRel s) h hi hg hl hsp]
+
+/-- a region whose allocation is as long as its data (never shrunk: every constructor, `clone`, and
+every fixed-length array) always has both guards within reach -/
+theorem guard_probes_fault_exact (c : Cfg) (hP : 0 < c.P) (s : State) (h : Inv c s) (i : Nat) (sl : Slot)
+    (hi : s.slots[i]? = some sl) (hg : sl.gone = false) (hl : 0 < sl.o.v.len)
+    (hcap : sl.o.v.cap = sl.o.v.len) :
+    (step c s ⟨.gprobe true, i⟩).1 = .segv ∧ (step c s ⟨.gprobe false, i⟩).1 = .segv :=
+  ⟨(guard_probes_fault c hP s h i sl hi hg hl).1,
+   (guard_probes_fault c hP s h i sl hi hg hl).2 (by rw [hcap]; exact spare_small hP _)⟩
+
+/-- Counterexample to `guard_probes_fault` without its proviso (page size 4 for brevity): a
+41-page vector shrunk to one byte keeps its allocation; the 40 pages after the data page are all
+spare capacity (`rw`), the harness' scan gives up on an accessible page and the read succeeds.
+The guard page is still there (`Inv`), one page after the END OF THE ALLOCATION — not of the data. -/
+theorem guard_probe_far_spare :
+    let c : Cfg := { P := 4, isArr := false, n := 164 }
+    let s := runState c (State.init fun _ => true) [⟨.new, 0⟩, ⟨.resize 1, 0⟩]
+    (step c s ⟨.gprobe false, 0⟩).1 = .ok ∧ (step c s ⟨.gprobe true, 0⟩).1 = .segv ∧
+    s.m.k.perm 44 = .none := by
+  decide
+
+/-- non-vacuity witness (`ro_write_faults`, `ro_read_ok`, `guard_probes_fault_exact`): after
+`new; lock; ro` slot 0 is a live `LockedRO` region of 16 bytes with `cap = len`; the outcomes,
+computed on the model, are the ones the theorems state -/
+example :
+    let s := runState { c1 with n := 16 } (State.init fun _ => true) [⟨.new, 0⟩, ⟨.lock, 0⟩, ⟨.ro, 0⟩]
+    (∃ sl, s.slots[0]? = some sl ∧ sl.gone = false ∧ sl.o.st = .prot .locked .ro ∧ 15 < sl.o.v.len ∧
+      sl.o.v.cap = sl.o.v.len) ∧
+    (step { c1 with n := 16 } s ⟨.wprobe 15, 0⟩).1 = .segv ∧ (step { c1 with n := 16 } s ⟨.rprobe 15, 0⟩).1 = .ok ∧
+    (step { c1 with n := 16 } s ⟨.gprobe true, 0⟩).1 = .segv ∧ (step { c1 with n := 16 } s ⟨.gprobe false, 0⟩).1 = .segv := by
+  refine ⟨⟨_, rfl, ?_⟩, ?_⟩ <;> decide
+
+/-- non-vacuity witness (`na_any_access_faults`, `rw_access_ok`): `new; lock; unlock; na` gives a live
+`NoAccess` region; `new` alone a plain container; `new; lock` a `Locked` read-write region -/
+example :
+    let c : Cfg := { c1 with n := 16 }
+    let s := runState c (State.init fun _ => true) [⟨.new, 0⟩, ⟨.lock, 0⟩, ⟨.unlock, 0⟩, ⟨.na, 0⟩, ⟨.new, 0⟩,
+      ⟨.new, 0⟩, ⟨.lock, 2⟩]
+    s.slots.map (fun sl => (sl.gone, sl.o.st, sl.o.v.len)) =
+      [(false, .prot .unlocked .na, 16), (false, .plain, 16), (false, .prot .locked .rw, 16)] ∧
+    ((step c s ⟨.rprobe 3, 0⟩).1, (step c s ⟨.wprobe 3, 0⟩).1) = (.segv, .segv) ∧
+    ((step c s ⟨.rprobe 3, 1⟩).1, (step c s ⟨.wprobe 3, 1⟩).1) = (.ok, .ok) ∧
+    ((step c s ⟨.rprobe 3, 2⟩).1, (step c s ⟨.wprobe 3, 2⟩).1) = (.ok, .ok) := by
+  decide
+
+/-! the same along arbitrary histories -/
+
+theorem ro_write_faults_reachable (c : Cfg) (hP : 0 < c.P) (oracle : Nat → Bool) (toks : List Tok)
+    (i : Nat) (sl : Slot) (hi : (runState c (State.init oracle) toks).slots[i]? = some sl)
+    (hg : sl.gone = false) (lm : LM) (hst : sl.o.st = .prot lm .ro) (off : Nat) (hoff : off < sl.o.v.len) :
+    (step c (runState c (State.init oracle) toks) ⟨.wprobe off, i⟩).1 = .segv ∧
+    (step c (runState c (State.init oracle) toks) ⟨.rprobe off, i⟩).1 = .ok :=
+  ⟨ro_write_faults c hP _ (inv_reachable c hP oracle toks) i sl hi hg lm hst off hoff,
+   ro_read_ok c hP _ (inv_reachable c hP oracle toks) i sl hi hg lm hst off hoff⟩
+
+theorem na_any_access_faults_reachable (c : Cfg) (hP : 0 < c.P) (oracle : Nat → Bool) (toks : List Tok)
+    (i : Nat) (sl : Slot) (hi : (runState c (State.init oracle) toks).slots[i]? = some sl)
+    (hg : sl.gone = false) (lm : LM) (hst : sl.o.st = .prot lm .na) (off : Nat) (hoff : off < sl.o.v.len) :
+    (step c (runState c (State.init oracle) toks) ⟨.rprobe off, i⟩).1 = .segv ∧
+    (step c (runState c (State.init oracle) toks) ⟨.wprobe off, i⟩).1 = .segv :=
+  na_any_access_faults c hP _ (inv_reachable c hP oracle toks) i sl hi hg lm hst off hoff
+
+theorem rw_access_ok_reachable (c : Cfg) (hP : 0 < c.P) (oracle : Nat → Bool) (toks : List Tok)
+    (i : Nat) (sl : Slot) (hi : (runState c (State.init oracle) toks).slots[i]? = some sl)
+    (hg : sl.gone = false) (hst : sl.o.st = .plain ∨ ∃ lm, sl.o.st = .prot lm .rw)
+    (off : Nat) (hoff : off < sl.o.v.len) :
+    (step c (runState c (State.init oracle) toks) ⟨.rprobe off, i⟩).1 = .ok ∧
+    (step c (runState c (State.init oracle) toks) ⟨.wprobe off, i⟩).1 = .ok :=
+  rw_access_ok c hP _ (inv_reachable c hP oracle toks) i sl hi hg hst off hoff
+
+theorem guard_probes_fault_reachable (c : Cfg) (hP : 0 < c.P) (oracle : Nat → Bool) (toks : List Tok)
+    (i : Nat) (sl : Slot) (hi : (runState c (State.init oracle) toks).slots[i]? = some sl)
+    (hg : sl.gone = false) (hl : 0 < sl.o.v.len) :
+    (step c (runState c (State.init oracle) toks) ⟨.gprobe true, i⟩).1 = .segv ∧
+    (sl.o.v.cap / c.P + 1 < pagesOf c.P sl.o.v.len + 40 →
+      (step c (runState c (State.init oracle) toks) ⟨.gprobe false, i⟩).1 = .segv) :=
+  guard_probes_fault c hP _ (inv_reachable c hP oracle toks) i sl hi hg hl
+
+/-! ### (e) the trailing guard page is no more than one page beyond the end of the allocation -/
+
+/-- `_page_round(s)` lies strictly above `s` and at most one page above it -/
+theorem aft_guard_within_page {P : Nat} (hP : 0 < P) (s : Nat) :
+    s < pageRound P s ∧ pageRound P s ≤ s + P := by
+  unfold pageRound
+  have := Nat.mod_lt s hP
+  omega
+
+/-- Reading on `allocate(size)`: with `d` the address of the first data byte, the trailing guard is
+the whole page starting at `d + _page_round(size)`; that address is above the last data byte and at
+most one page after the end `d + size` of the allocation; the page is `PROT_NONE`, so is the page
+before `d`, and every byte of `[d, d+size)` is on a `rw` page. -/
+theorem alloc_guards (c : Cfg) (hP : 0 < c.P) (m : Mach) (size : Nat) :
+    let d := (m.k.brk + 1) * c.P
+    let g := m.k.brk + size / c.P + 2
+    g * c.P = d + pageRound c.P size ∧ d + size < g * c.P ∧ g * c.P ≤ d + size + c.P ∧
+    (alloc c m size).1.k.perm g = .none ∧ (alloc c m size).1.k.perm ((d - 1) / c.P) = .none ∧
+    (∀ off, off < size → (alloc c m size).1.k.perm ((d + off) / c.P) = .rw) := by
+  intro d g
+  have hr := aft_guard_within_page hP size
+  have hg : g * c.P = d + pageRound c.P size := by
+    have := addr_aft hP m.k.brk size
+    simp only [d, g]; rw [← this, Nat.add_mul]; omega
+  have hple := pagesOf_le_div hP size
+  have hz := Nat.zero_le (size / c.P)
+  refine ⟨hg, by omega, by omega, ?_, ?_, ?_⟩
+  · rw [alloc_perm c hP, if_neg (by omega), if_pos rfl]
+  · have : (d - 1) / c.P = m.k.brk := ptr_pred_div hP ⟨m.k.brk, 0, 0, []⟩
+    rw [this, alloc_perm c hP, if_neg (by omega), if_neg (by omega), if_pos rfl]
+  · intro off hoff
+    have h1 := off_div_lt hP hoff
+    have h2 := Nat.zero_le (off / c.P)
+    simp only [d]
+    rw [div_aligned_add hP, alloc_perm c hP, if_pos (by omega)]
+
+/-- non-vacuity / reading: for `size = P` the guard starts exactly one page after the end of the
+allocation (the upper bound is attained), for `size = P - 1` one byte after it -/
+example : pageRound 4096 4096 = 4096 + 4096 ∧ pageRound 4096 4095 = 4095 + 1 := by decide
+
+/-! ### (f) contents under `clone` and `resize` -/
+
+/-- `Vec::clone`: the copy has the same length and the same `len` bytes -/
+theorem vec_clone_keeps_data (c : Cfg) (m : Mach) (v : PVec) (h : v.len ≤ v.buf.length) :
+    (vecClone c m v).2.len = v.len ∧ (vecClone c m v).2.data = v.data :=
+  vecClone_data c m v h
+
+/-- `Vec::resize(n, 0)`: the first `min old new` bytes are kept, the new bytes are `0` — whether the
+vector shrinks, grows in place or reallocates -/
+theorem vec_resize_prefix (c : Cfg) (m : Mach) (v : PVec) (n : Nat) (hl : v.len ≤ v.cap)
+    (hb : v.buf.length = v.cap) :
+    (vecResize c m v n).2.len = n ∧ (vecResize c m v n).2.data = v.data.take n ++ zeros (n - v.len) :=
+  ⟨vecResize_len c m v n, vecResize_data c m v n hl hb⟩
+
+/-- `ResizableBytes::resize` of a `Locked` region (allocate, lock, copy, drop the old one): when it
+succeeds the same prefix law holds -/
+theorem locked_resize_prefix (c : Cfg) (m : Mach) (v nv : PVec) (n : Nat) (hl : v.len ≤ v.buf.length)
+    (h : (lockedResize c m v n).2 = some nv) :
+    nv.len = n ∧ nv.data = v.data.take n ++ zeros (n - v.len) :=
+  ⟨(lockedResize_some hl h).1, (lockedResize_some hl h).2.2⟩
+
+/-- the `clone` token, in every type state that has a `Clone` impl: when it answers `ok` exactly one
+live slot is appended; it is in the same type state and holds the same bytes as the original
+(whose slot is untouched) -/
+theorem clone_keeps_data (c : Cfg) (s : State) (h : Inv c s) (i : Nat) (sl : Slot)
+    (hi : s.slots[i]? = some sl) (hg : sl.gone = false) (hok : (step c s ⟨.clone, i⟩).1 = .ok) :
+    ∃ nsl : Slot, (step c s ⟨.clone, i⟩).2.slots = s.slots ++ [nsl] ∧ nsl.gone = false ∧
+      nsl.o.st = sl.o.st ∧ nsl.o.v.len = sl.o.v.len ∧ nsl.o.v.data = sl.o.v.data :=
+  opClone_ok (s := resetRel s) h hi hg hok
+
+/-- the `resize:n` token (Plain, Unlocked and Locked read-write regions): when it answers `ok` the
+slot keeps its type state, has length `n`, its first `min old n` bytes are the old ones and the
+rest is zero; no other slot changes -/
+theorem resize_keeps_prefix (c : Cfg) (s : State) (h : Inv c s) (i : Nat) (sl : Slot)
+    (hi : s.slots[i]? = some sl) (hg : sl.gone = false) (n : Nat)
+    (hok : (step c s ⟨.resize n, i⟩).1 = .ok) :
+    ∃ nsl : Slot, (step c s ⟨.resize n, i⟩).2.slots = s.slots.set i nsl ∧ nsl.gone = false ∧
+      nsl.o.st = sl.o.st ∧ nsl.o.v.len = n ∧
+      nsl.o.v.data = sl.o.v.data.take n ++ zeros (n - sl.o.v.len) :=
+  opResize_ok (s := resetRel s) h hi hg hok
+
+/-- non-vacuity witness (`clone_keeps_data`, `resize_keeps_prefix`): a locked region filled with
+`a5` is cloned, the clone grown beyond its capacity (resize-by-copy) and then shrunk -/
+example :
+    let c : Cfg := { c1 with n := 4 }
+    let r := run c (State.init fun _ => true)
+      [⟨.new, 0⟩, ⟨.fill 0xa5, 0⟩, ⟨.lock, 0⟩, ⟨.clone, 0⟩, ⟨.resize 6, 1⟩, ⟨.resize 2, 1⟩]
+    r.map (·.1) = [.ok, .ok, .ok, .ok, .ok, .ok] ∧
+    r.map (fun x => x.2.slots.map fun sl => sl.o.v.data) =
+      [[[0, 0, 0, 0]], [[0xa5, 0xa5, 0xa5, 0xa5]], [[0xa5, 0xa5, 0xa5, 0xa5]],
+       [[0xa5, 0xa5, 0xa5, 0xa5], [0xa5, 0xa5, 0xa5, 0xa5]],
+       [[0xa5, 0xa5, 0xa5, 0xa5], [0xa5, 0xa5, 0xa5, 0xa5, 0, 0]],
+       [[0xa5, 0xa5, 0xa5, 0xa5], [0xa5, 0xa5]]] := by
+  decide
+
+/-! ### (g) a step touches no page of a slot it leaves alone -/
+
+/-- If a live slot is the same before and after (any two states satisfying the invariant, e.g. a
+state and its successor under any token), every page of its allocation — data, spare capacity and
+both guard pages — has the same permission and the same lock flag. -/
+theorem others_untouched (c : Cfg) (s s' : State) (h : Inv c s) (h' : Inv c s') (j j' : Nat) (sl : Slot)
+    (hj : s.slots[j]? = some sl) (hj' : s'.slots[j']? = some sl) (hg : sl.gone = false)
+    (p : Nat) (hp : inBlock c.P sl.o.v p) :
+    s'.m.k.perm p = s.m.k.perm p ∧ s'.m.k.locked p = s.m.k.locked p :=
+  Proofs.Protected.others_untouched h h' hj hj' hg hp
+
+/-! ### further non-vacuity witnesses -/
+
+instance (P : Nat) (v : PVec) (p : Nat) : Decidable (inBlock P v p) := by
+  unfold inBlock; infer_instance
+
+/-- `inv_plain`: after `new` slot 0 is a live plain container of 16 bytes (page 1 = fore guard `n`,
+page 2 = data `rw`, page 3 = trailing guard `n`) -/
+example :
+    let s := runState { c1 with n := 16 } (State.init fun _ => true) [⟨.new, 0⟩]
+    (∃ sl, s.slots[0]? = some sl ∧ sl.gone = false ∧ sl.o.st = .plain ∧ 0 < sl.o.v.len) ∧
+    (s.m.k.perm 1, s.m.k.perm 2, s.m.k.perm 3) = (.none, .rw, .none) := by
+  refine ⟨⟨_, rfl, ?_⟩, ?_⟩ <;> decide
+
+/-- all fields of a slot, as a value with decidable equality (for the witnesses) -/
+def slotView (sl : Slot) : (Bool × St × Nat) × (Nat × Nat × Bytes × Bool) :=
+  ((sl.gone, sl.o.st, sl.o.v.base), (sl.o.v.cap, sl.o.v.len, sl.o.v.buf, sl.rnd))
+
+/-- `inv_disjoint` / `others_untouched`: a state with two live slots (`new; clone`), whose blocks are
+pages 1–3 and 4–6; locking slot 1 leaves slot 0 and its pages alone -/
+example :
+    let c : Cfg := { c1 with n := 16 }
+    let s := runState c (State.init fun _ => true) [⟨.new, 0⟩, ⟨.clone, 0⟩]
+    let s' := (step c s ⟨.lock, 1⟩).2
+    s.slots.map (fun sl => (sl.gone, (List.range 10).filter fun p => decide (inBlock c.P sl.o.v p))) =
+      [(false, [1, 2, 3]), (false, [4, 5, 6])] ∧
+    s'.slots[0]?.map slotView = s.slots[0]?.map slotView ∧ s'.m.k.locked 5 = true ∧
+    [1, 2, 3].map s'.m.k.locked = [1, 2, 3].map s.m.k.locked ∧
+    [1, 2, 3].map s'.m.k.perm = [1, 2, 3].map s.m.k.perm := by
+  decide
+
+/-- `inv_unowned`: in the state after `new; drop` no live slot owns page 2 (the hypothesis holds),
+and indeed the page is `rw` again -/
+example :
+    let s := runState { c1 with n := 16 } (State.init fun _ => true) [⟨.new, 0⟩, ⟨.drop, 0⟩]
+    (∀ (i : Nat) (sl : Slot), s.slots[i]? = some sl → sl.gone = false → ¬ inBlock 4096 sl.o.v 2) ∧
+    s.m.k.perm 2 = .rw := by
+  intro s
+  refine ⟨?_, by decide⟩
+  intro i sl hi hg
+  have hm := List.mem_of_getElem? hi
+  have : ∀ sl ∈ s.slots, sl.gone = true := by decide
+  rw [this sl hm] at hg; simp at hg
+
+/-- `tight_step`: its hypotheses hold in every reachable state of the repaired model, and the side
+condition of the leaky variant is decidable on concrete states (here: a `lock` of a read-only region) -/
+example :
+    let s := runState c1Leaky (State.init fun _ => true) [⟨.new, 0⟩, ⟨.lock, 0⟩, ⟨.unlock, 0⟩, ⟨.ro, 0⟩]
+    Inv c1Leaky s ∧ Tight c1Leaky s ∧ ¬ LocksNoAccess s ⟨.lock, 0⟩ ∧ (step c1Leaky s ⟨.lock, 0⟩).1 = .ok :=
+  ⟨inv_reachable _ (by decide) _ _,
+   tight_runState (by decide) _ (inv_init _ _) (tight_init _ _) (Or.inr (by decide)), by decide, by decide⟩
 
 /-! ### Tie to the source: the allocator arithmetic and the system-call arguments as translated from `protected.rs`
 (`DryocVerif/Gen/Protected.lean`, regenerated by `tools/rs2lean.py` on every run) are the ones the model uses. -/
